@@ -80,8 +80,14 @@ def hourly(draw, family=None, ref=None, aware=None):
     vals = draw(st.lists(mags(), min_size=n, max_size=n))
     if aware is None:
         aware = draw(st.booleans()) if ref is None else ref["aware"]
-    return {"kind": "hourly", "start": start, "values": vals, "unit": draw(st.sampled_from(UNITS[fam])),
-            "fam": fam, "aware": aware}
+    out = {"kind": "hourly", "start": start, "values": vals, "unit": draw(st.sampled_from(UNITS[fam])),
+           "fam": fam, "aware": aware}
+    # a time line with a hole (what a UTC series looks like after a fall-back night): one more value, one hour dropped,
+    # so that the number of rows stays n
+    if n >= 2 and draw(st.floats(0, 1)) < 0.2:
+        out["values"] = vals + [draw(mags())]
+        out["gap"] = draw(st.integers(1, n - 1))
+    return out
 
 
 def empty():
@@ -95,9 +101,15 @@ def make(o):
         return SourceValue(o["m"] * u(o["unit"]), label="a scalar")
     df = create_hourly_usage_df_from_list(o["values"], datetime(2024, 1, 1) + timedelta(hours=o["start"]),
                                           u(o["unit"]))
+    if o.get("gap") is not None:
+        df = df.drop(df.index[o["gap"]])
     if o["aware"]:
         df = df.tz_localize("UTC")
     return SourceHourlyValues(df, label="a series")
+
+
+def kept_values(o):
+    return [v for i, v in enumerate(o["values"]) if i != o.get("gap")]
 
 
 def factor(unit):
@@ -112,7 +124,8 @@ def ref_value(o):
     f, dim = factor(o["unit"])
     if o["kind"] == "scalar":
         return ("scalar", dim, o["m"] * f)
-    return ("hourly", dim, {o["start"] + i: v * f for i, v in enumerate(o["values"])}, o["aware"])
+    return ("hourly", dim, {o["start"] + i: v * f for i, v in enumerate(o["values"]) if i != o.get("gap")},
+            o["aware"])
 
 
 def observed(v):
@@ -260,7 +273,7 @@ def cases(draw):
         return {"kind": "binop", "op": op, "a": a, "b": b}
     if kind == "helper":
         h = draw(st.sampled_from(["sum", "mean", "max", "abs", "ceil", "neg", "shift", "cmp_max", "cmp_min",
-                                  "round", "copy", "copy_scalar", "to", "sum_builtin"]))
+                                  "round", "copy", "copy_scalar", "to", "sum_builtin", "alias_chain", "alias_chain"]))
         a = draw(hourly()) if h != "copy_scalar" else draw(scalar())
         c = {"kind": "helper", "h": h, "a": a}
         if h == "shift":
@@ -269,8 +282,11 @@ def cases(draw):
                                                [3600.0, "s"], [7199.0, "s"]]))
         if h in ("cmp_max", "cmp_min"):
             c["b"] = draw(st.one_of(hourly(family=a["fam"], ref=a), empty()))
-        if h == "to":
+        if h in ("to", "alias_chain"):
             c["unit"] = draw(st.sampled_from(UNITS[a["fam"]]))
+        if h == "alias_chain":
+            c["how"] = draw(st.sampled_from(["plus_empty", "plus_zero", "sum_single", "empty_plus"]))
+            c["then"] = draw(st.sampled_from(["abs", "neg", "copy", "cmp", "sum", "add_self"]))
         if h == "sum_builtin":
             c["others"] = draw(st.lists(st.one_of(hourly(family=a["fam"], ref=a), empty()), min_size=0, max_size=3))
         return c
@@ -290,7 +306,7 @@ def nontrivial(c):
     if a.get("fam") == b.get("fam") and a.get("unit") != b.get("unit"):
         return True
     if a["kind"] == "hourly" and b["kind"] == "hourly":
-        return a["start"] != b["start"] or len(a["values"]) != len(b["values"])
+        return a["start"] != b["start"] or len(a["values"]) != len(b["values"]) or a.get("gap") != b.get("gap")
     return False
 
 
@@ -349,7 +365,7 @@ def check(c, ctx):
             elif h == "ceil":
                 # ceil acts on the magnitude in the series' own unit
                 exp = ("hourly", dim, {k: math.ceil(v) * f for k, v in
-                                       zip(sorted(vals), c["a"]["values"])}, ra[3])
+                                       zip(sorted(vals), kept_values(c["a"]))}, ra[3])
                 res = a.ceil()
             elif h == "shift":
                 d = SourceValue(c["shift"][0] * u(c["shift"][1]), label="shift")
@@ -365,7 +381,7 @@ def check(c, ctx):
                 exp = ("hourly", dim, {k: fn(vals.get(k, 0.0), other.get(k, 0.0)) for k in keys}, ra[3])
                 res = a.np_compared_with(b, "max" if h == "cmp_max" else "min")
             elif h == "round":
-                exp = ("hourly", dim, {k: round(v, 2) * f for k, v in zip(sorted(vals), c["a"]["values"])}, ra[3])
+                exp = ("hourly", dim, {k: round(v, 2) * f for k, v in zip(sorted(vals), kept_values(c["a"]))}, ra[3])
                 res = round(a, 2)
             elif h == "copy":
                 exp, res = ra, (a.copy() if len(c["a"]["values"]) % 2 else _copy.copy(a))
@@ -373,6 +389,35 @@ def check(c, ctx):
                 exp, res = ra, (a.copy() if int(c["a"]["m"]) % 2 else _copy.copy(a))
             elif h == "to":
                 exp, res = ra, a.to(u(c["unit"]))
+            elif h == "alias_chain":
+                # a result that may share its DataFrame with the operand is converted in place: the operand must keep
+                # its physical value and still compute right afterwards
+                str(a)
+                _ = a.unit
+                r = {"plus_empty": lambda: a + EmptyExplainableObject(), "plus_zero": lambda: a + 0,
+                     "sum_single": lambda: sum([a], start=EmptyExplainableObject()),
+                     "empty_plus": lambda: EmptyExplainableObject() + a}[c["how"]]()
+                r.to(u(c["unit"]))
+                why = same(observed(r), ra)
+                if why:
+                    fail("wrong_result", "%s then .to(%s): %s" % (c["how"], c["unit"], why))
+                why = same(observed(a), ra, zero_fill=False)
+                if why:
+                    fail("operand_changed", "operand changed by converting the result of %s: %s" % (c["how"], why))
+                t = c["then"]
+                if t == "abs":
+                    exp, res = ("hourly", dim, {k: abs(x) for k, x in vals.items()}, ra[3]), a.abs()
+                elif t == "neg":
+                    exp, res = ("hourly", dim, {k: -x for k, x in vals.items()}, ra[3]), -a
+                elif t == "sum":
+                    exp, res = ("scalar", dim, math.fsum(vals.values())), a.sum()
+                elif t == "add_self":
+                    exp, res = ("hourly", dim, {k: 2 * x for k, x in vals.items()}, ra[3]), a + a
+                elif t == "cmp":
+                    exp, res = ("hourly", dim, {k: max(x, 0.0) for k, x in vals.items()}, ra[3]), \
+                        a.np_compared_with(EmptyExplainableObject(), "max")
+                else:
+                    exp, res = ra, a.copy()
             elif h == "sum_builtin":
                 others = [make(o) for o in c["others"]]
                 tot = dict(vals)
@@ -389,7 +434,7 @@ def check(c, ctx):
         why = same(observed(res), exp)
         if why:
             fail("wrong_result", "%s on %s: %s" % (h, c["a"], why))
-        if h not in ("to",):
+        if h not in ("to", "alias_chain"):
             why = same(observed(a), ra, zero_fill=False)
             if why:
                 fail("operand_changed", "operand of %s changed: %s" % (h, why))
